@@ -192,10 +192,15 @@ def perturbation(ck, cp, tier, seed):
                             continue
                         ctxd = 2 if (sum(pat) + Fe) % 2 else None
                         torch.manual_seed(seed + Fe)
+                        # conditioners with their regularisers switched on (dropout, batch norm) for the two-feature masks: in
+                        # evaluation mode they are deterministic functions of (identity features, context) all the same
+                        dp_ = 0.3 if Fe == 2 else 0.0
                         if dims == 2:
-                            mk = lambda i, o: nets.ResidualNet(i, o, hidden_features=8, context_features=ctxd, num_blocks=1)
+                            mk = lambda i, o: nets.ResidualNet(i, o, hidden_features=8, context_features=ctxd, num_blocks=1,
+                                                               dropout_probability=dp_, use_batch_norm=dp_ > 0)
                         else:
-                            mk = lambda i, o: nets.ConvResidualNet(i, o, hidden_channels=4, context_channels=ctxd, num_blocks=1)
+                            mk = lambda i, o: nets.ConvResidualNet(i, o, hidden_channels=4, context_channels=ctxd, num_blocks=1,
+                                                                   dropout_probability=dp_, use_batch_norm=dp_ > 0)
                         extra = dict(kw)
                         if uncond is True:
                             extra["apply_unconditional_transform"] = True
